@@ -387,6 +387,33 @@ pub fn check(s: &'static dyn Proto, c: &Case, st: &mut Stats, _k: &KnownFindings
             }
         }
     }
+    // ---- rejection samplers on a stuck-then-recovering RNG: the first k calls return all-zero
+    // bytes (which every rejection sampler must refuse and retry), then the tapes continue
+    // independently; what is drawn must still vary with the tape.  Only samplers that reject the
+    // zero draw are in scope (ristretto255 / NIST scalar sampling: KeGroup::random_sk and the
+    // OPRF blind); Curve25519's clamp turns zero bytes into a valid key and is not checked here.
+    for k in 1..=2u8 {
+        let za = TapeSpec { prefix_calls: k, prefix_fill: 0, ..c.tape_a.sub(200) };
+        let zb = TapeSpec { prefix_calls: k, prefix_fill: 0, ..c.tape_b.sub(200) };
+        if m.ke != KeKind::Curve25519 {
+            let ka = s.kg_random_sk(&mut za.rng());
+            let kb = s.kg_random_sk(&mut zb.rng());
+            ensure!(
+                ka != kb,
+                "KeGroup::random_sk returns the same key ({}) on two tapes that differ only after {k} all-zero draw(s)",
+                hex::encode(&ka)
+            );
+            st.eval(1);
+        }
+        let (ra, _) = s.client_reg_start(&mut za.rng(), &pw).map_err(|x| e("reg start on a zero-prefixed tape", x))?;
+        let (rb, _) = s.client_reg_start(&mut zb.rng(), &pw).map_err(|x| e("reg start on a zero-prefixed tape", x))?;
+        ensure!(
+            s.ser(Codec::Native, &ra) != s.ser(Codec::Native, &rb),
+            "registration request is the same on two tapes that differ only after {k} all-zero draw(s)"
+        );
+        st.eval(1);
+        st.label("zero-prefixed-tapes");
+    }
     // ---- no two random values coincide within a run
     for i in 0..all_values_a.len() {
         for j in 0..i {
@@ -414,7 +441,7 @@ pub const BUDGET: Budget = Budget {
 pub fn run(cfg: &RunCfg) -> (Outcome, EvidenceExtra) {
     let out = run_property(cfg, "C17", crate::suites::suites20(), BUDGET, strategy, check);
     let ev = EvidenceExtra {
-        rule: "case = inputs plus a pair of independent tapes (a, b) and a split position; for each of the six randomised operations (ServerSetup::new, ClientRegistration::start/finish, ClientLogin::start, ServerLogin::start with and without record): (determinism) two runs on tape a and a third in a fresh thread give byte-identical outputs, states and tape consumption; (freshness) every random value (OPRF blind at registration and login, envelope nonce, masking nonce, client/server nonce, client/server ephemeral keys, OPRF seed, static and fake key pairs, the fake-record masked response) differs between tapes a and b, all of them are pairwise distinct within a run, and each RFC-defined one is witnessed by a recorded draw (nonces/seed verbatim, key pairs = DeriveDiffieHellmanKeyPair(draw), fake masking key = the draw whose pad reproduces the masked response; it differs across attempts); (prefix tapes) on the tape a[..n] ++ b the outputs are identical when all consumed bytes lie before n, otherwise they differ, values whose witness draw lies before n are unchanged and values whose draw starts at or after n change; (failing RNG) for every call index k the operation makes, an RNG that fails at call k (try_fill_bytes error / fill_bytes panic) makes the operation propagate that failure or return an error, or, if it returns Ok, every RFC-random value in the output is still witnessed by a successful draw. evaluation = one relation; every case uses non-identical tape pairs; distinct by hash".into(),
+        rule: "case = inputs plus a pair of independent tapes (a, b) and a split position; for each of the six randomised operations (ServerSetup::new, ClientRegistration::start/finish, ClientLogin::start, ServerLogin::start with and without record): (determinism) two runs on tape a and a third in a fresh thread give byte-identical outputs, states and tape consumption; (freshness) every random value (OPRF blind at registration and login, envelope nonce, masking nonce, client/server nonce, client/server ephemeral keys, OPRF seed, static and fake key pairs, the fake-record masked response) differs between tapes a and b, all of them are pairwise distinct within a run, and each RFC-defined one is witnessed by a recorded draw (nonces/seed verbatim, key pairs = DeriveDiffieHellmanKeyPair(draw), fake masking key = the draw whose pad reproduces the masked response; it differs across attempts); (prefix tapes) on the tape a[..n] ++ b the outputs are identical when all consumed bytes lie before n, otherwise they differ, values whose witness draw lies before n are unchanged and values whose draw starts at or after n change; (stuck-then-recovering RNG) on two tapes whose first 1-2 draws are all-zero and which then continue independently, KeGroup::random_sk (ristretto255/NIST) and the registration request still differ; (failing RNG) for every call index k the operation makes, an RNG that fails at call k (try_fill_bytes error / fill_bytes panic) makes the operation propagate that failure or return an error, or, if it returns Ok, every RFC-random value in the output is still witnessed by a successful draw. evaluation = one relation; every case uses non-identical tape pairs; distinct by hash".into(),
         assumptions: vec!["the OPRF blind is checked metamorphically only (RFC 9497 does not fix the sampling method)".into(),
             "32-byte collisions between independent tapes do not occur".into()],
         exhaustive: None,
